@@ -108,7 +108,7 @@ static void put_path_result(int rc)
 static void vh_op(int argc, char **argv)
 {
 	const char *op = argv[0];
-	alarm(60);      /* a non-terminating call is a crash, not a stalled check */
+	alarm(4);       /* a non-terminating call is a crash, not a stalled check */
 	if (strcmp(op, "np2") == 0 && argc == 2) {
 		printf("%" PRIu64 "\n", muggle_next_pow_of_2((uint64_t)vh_ull(argv[1])));
 		return;
